@@ -2,6 +2,80 @@ from harness.props.c06 import EngineProp, gen_engine_case
 from harness.props.c11 import gen_uod_case
 
 
+TEXT_POOL = ["Mark: A", "Mark: B", "Wait: 0.5 s", "Wait: 1 s", "CmdA: d=0", "CmdB: d=1", "CmdC: d=0 f=0", "Noop: 2", "Base: s", "Base: zz",
+             "Increment run counter", "Notify: n", "Info: i", "Warning: w", "Pause: 1 s", "Hold: 1 s", "Pause: x", "Wait: abc", "Wait",
+             "Frob: 1", "Foo bar", ": :", "Mark", "Speed: 5", "1.0 Mark: T", "abc Mark: U", "Simulate: X = 1", "Simulate: X = 0",
+             "Simulate: TT = 2 degC", "Simulate: TT = 2 degF", "Simulate: TT = 2 L", "Simulate: Nope = 1", "Simulate: Process Time = abc",
+             "Simulate: Run Time = 0 s", "Simulate: Process Time = 5", "Simulate: Block Time = 1 s", "Simulate off: X", "Simulate off: Nope",
+             "Simulate: FT01 = 3 L/h", "Simulate: Run Counter = 2", "Simulate: Clock = 1", "Simulate: Mark = x", "Simulate: System State = Foo",
+             "End block", "End blocks", "Call macro: M", "Batch: b", "", "# c", "Error: e", "Unpause", "Unhold"]
+TEXT_COND = ["X > 1", "X > 0", "TT > 5 degC", "TT > 5 L", "TT > 5", "Nope > 1", "Run Time > 1 s", "Run Time > 1 kg", "X > abc", "X >", "> 1",
+             "Block Time > 0.5 s", "FT01 < 100 L/h", "FT01 < 100 mL/min", "Run Counter >= 0", "Mark = A", "System State = Running"]
+
+
+def gen_text_case(rng):
+    lines = []
+    for _ in range(rng.randint(1, 7)):
+        r = rng.random()
+        if r < 0.62:
+            lines.append(rng.choice(TEXT_POOL))
+        elif r < 0.82:
+            lines.append(f"{rng.choice(['Watch', 'Alarm'])}: {rng.choice(TEXT_COND)}")
+            for _ in range(rng.randint(1, 2)):
+                lines.append("    " + rng.choice(TEXT_POOL))
+        elif r < 0.92:
+            lines.append(f"Block: B{len(lines)}")
+            for _ in range(rng.randint(1, 3)):
+                lines.append("    " + rng.choice(TEXT_POOL + ["End block"]))
+        else:
+            lines.append("Macro: M")
+            lines.append("    " + rng.choice(TEXT_POOL))
+            lines.append("Call macro: M")
+    n = rng.randint(8, 30)
+    inject = {}
+    if rng.random() < 0.4:
+        inject[str(rng.randrange(1, n))] = [rng.choice(TEXT_POOL) for _ in range(rng.randint(1, 2))]
+    return dict(kind="text", lines=lines, ticks=n, stop_at=(rng.randrange(2, n) if rng.random() < 0.6 else None), inject=inject)
+
+
+def run_text_case(case):
+    import logging
+    logging.disable(logging.CRITICAL)
+    from harness.engine_env import Env
+    env = Env("\n".join(case["lines"]) + "\n")
+    e = env.engine
+    out = []
+    try:
+        env.start()
+        injected_failed = False
+        for k in range(case["ticks"]):
+            if case["stop_at"] is not None and k == case["stop_at"]:
+                try:
+                    env.user("Stop")
+                except Exception:
+                    pass
+            snippet = case["inject"].get(str(k))
+            if snippet:
+                try:
+                    e.inject_code("\n".join(snippet) + "\n")
+                    injected_failed = True     # a failure may now come from code that is not a method line
+                except Exception:
+                    injected_failed = True     # inject_code reports a parse error by raising (and the error state)
+            raised = False
+            try:
+                env.tick()
+            except Exception as ex:
+                raised = repr(ex)[:160]
+            st = e.method_manager.get_method_state()
+            out.append(dict(raised=raised, error=bool(e.has_error_state()), paused=bool(e._runstate_paused),
+                            status=str(e.tags["Method Status"].get_value()).lower().endswith("error"),
+                            failed=bool(st.failed_line_ids) or injected_failed,
+                            stopped=str(e.tags["System State"].get_value()) == "Stopped"))
+    finally:
+        env.close()
+    return dict(kind="text", ticks=out)
+
+
 def gen_fault_case(rng):
     """fault-heavy sequences: interpreter errors, failing UOD commands, hardware read/write errors, followed by Stop /
     Unpause / Restart by the user"""
@@ -34,23 +108,57 @@ class C13(EngineProp):
                   "reaches set_error_state whatever else the tick does (proved through the primitive decomposition of the "
                   "tick and the fact that the event trace only grows in every execution); Stop is accepted in the error "
                   "state. The model's tick is a total function: that no exception escapes Engine.tick is checked on the real "
-                  "engine (the driver records an escaping exception as an event the model never emits). NOT covered: the "
-                  "property's quantifier over method texts (the interpreter is an input of this model) and the method-state "
-                  "clause; a method-level crash found earlier by probing (Simulate: Process Time = abc makes "
-                  "update_calculated_tags raise outside the try) is documented in DESIGN.md and lies outside this check.")
+                  "engine (the driver records an escaping exception as an event the model never emits). The "
+                  "property's quantifier over method TEXTS is covered by a second stream without a predictive model: generated "
+                  "texts (valid, malformed, unknown names, bad units and arguments, Simulate on every kind of tag, macros, "
+                  "blocks, injected snippets) run on the real engine and the Coq monitor checks every tick: no exception "
+                  "escapes, an error state means paused with Method Status Error and a failed line, Stop is honoured within 4 "
+                  "ticks. It found two genuine defects, both repaired.")
     LEVEL_NOTE = ("Theorems are about coq/model/Eng.v. Tie: operation-by-operation correspondence with the real Engine under "
                   "scripted interpreter exceptions, failing UOD commands and tracking errors (hardware callbacks work, as the property assumes; hardware errors are exercised by C07-C09/C11); "
                   "the Coq monitor (no escaped exception, error => paused + Method Status Error + System State Paused, "
                   "Stopped within 4 ticks of an accepted user Stop) runs on the real observations. No axioms.")
-    TECHNIQUE = "Coq proof (error routing through the primitive decomposition of the tick; local theorems) + operation-by-operation correspondence with the real Engine under injected faults + Coq monitor on the real observations"
-    RULE = ("fault-heavy operation sequences of 10-40 operations: interpreter exceptions (12% of ticks), "
+    TECHNIQUE = "Coq proof (error routing through the primitive decomposition of the tick; local theorems) + operation-by-operation correspondence with the real Engine under injected faults + method texts and injected snippets run on the real Engine + Coq monitor on the real observations"
+    RULE = ("65% engine-core cases: fault-heavy operation sequences of 10-40 operations: interpreter exceptions (12% of ticks), "
             "UOD commands failing at iteration 0-2, user Stop/Unpause/Restart/Start/Pause/Hold "
             "between ticks, mixed with UOD-heavy and general sequences; non-trivial = at least one error state entered "
-            "while a run is active and a later accepted Stop; distinct by canonical JSON")
+            "while a run is active and a later accepted Stop; 35% method texts: 1-7 items from a pool of 52 lines (valid "
+            "instructions, bad arguments and units, unknown names, malformed lines, Simulate on UOD, calculated and system tags, "
+            "End block(s), macro calls) incl. Watch / Alarm over 17 conditions, blocks and a macro, 8-30 ticks, in 40% a random "
+            "injected snippet, in 60% a user Stop at a random tick; non-trivial = the engine entered the error state; distinct by "
+            "canonical JSON")
+
+    def run_impl(self, case):
+        if case.get("kind") == "text":
+            import json as _json
+            o = run_text_case(case)
+            self._obs[_json.dumps(case, sort_keys=True)] = o
+            return o
+        return super().run_impl(case)
+
+    def case_to_coq(self, case):
+        if case.get("kind") == "text":
+            sa = "None" if case["stop_at"] is None else f"(Some {case['stop_at']}%nat)"
+            return "(IText {| tc_stop_at := %s |})" % sa
+        return "(IEng " + super().case_to_coq(case) + ")"
+
+    def obs_to_coq(self, obs):
+        if obs.get("kind") == "text":
+            from harness.common import b, lst
+            return "(OText %s)" % lst(["{| tt_raised := %s; tt_error := %s; tt_paused := %s; tt_status_error := %s; tt_failed := %s; tt_stopped := %s |}"
+                                       % (b(bool(t["raised"])), b(t["error"]), b(t["paused"]), b(t["status"]), b(t["failed"]), b(t["stopped"]))
+                                       for t in obs["ticks"]])
+        return "(OEng " + super().obs_to_coq(obs) + ")"
+
+    def size(self, case):
+        return len(case["lines"]) + case["ticks"] if case.get("kind") == "text" else super().size(case)
 
     def gen_cases(self, rng, n, tier):
         out = []
         for _ in range(n):
+            if rng.random() < 0.35:
+                out.append(gen_text_case(rng))
+                continue
             r = rng.random()
             c = gen_fault_case(rng) if r < 0.6 else gen_uod_case(rng) if r < 0.8 else gen_engine_case(rng, True)
             # the property assumes hardware callbacks that work: no hardware read / write errors in this stream
@@ -59,6 +167,8 @@ class C13(EngineProp):
         return out
 
     def nontrivial(self, case, obs):
+        if case.get("kind") == "text":
+            return any(t["error"] for t in obs["ticks"])
         err_at = [k for k, v in enumerate(obs["views"]) if v["flags"][0] and any(e[0] == "error" for e in v["events"])]
         if not err_at:
             return False
@@ -66,6 +176,8 @@ class C13(EngineProp):
                    for op, v in list(zip(case["ops"], obs["views"]))[err_at[0]:])
 
     def kind(self, case, obs):
+        if case.get("kind") == "text":
+            return "text,error=%d,raised=%d" % (int(any(t["error"] for t in obs["ticks"])), int(any(t["raised"] for t in obs["ticks"])))
         n = sum(1 for v in obs["views"] for e in v["events"] if e[0] == "error")
         return f"errors={min(n, 4)}"
 
